@@ -1,6 +1,6 @@
 (* I/O wrapper around the extracted model of C20 (no logic of its own beyond parsing and printing).
    Same output format as the "R " lines of harness/src/bin/c20.rs:
-     p <iface|-> <member|-> <typ> <serial> <sender|-> <pre: stored id hex | none> <draw hex> <secs>
+     p <iface|-> <member|-> <typ> <serial> <sender|-> <reply serial|-> <pre: stored id hex | none> <draw hex> <secs>
      u <12 bytes hex> <12 bytes hex> <secs>
    The stored id before the call, the draw and the clock are the environment the implementation ran in
    (read off by the harness / from the id's tail) and are the explicit arguments of the model. *)
@@ -44,12 +44,13 @@ let show_written = function [] -> "-" | l -> String.concat "|" (List.map show_re
 let empty_fs : fs = fun _ -> None
 let show_file (f : fs) = match f machine_id_path with Some b -> hex_of_list b | None -> "none"
 
-let make_msg iface member typ serial sender =
+let make_msg iface member typ serial sender rs =
   { m_typ = (match typ with "c" -> MCall | "s" -> MSignal | "r" -> MReply | _ -> MError);
     m_dh = { dh_interface = opt_of_hex iface; dh_member = opt_of_hex member;
              dh_object = Some (list_of_hex "2f78"); dh_destination = None;
              dh_serial = (if serial = 0 then None else Some (n_of_int serial)); dh_sender = opt_of_hex sender;
-             dh_signature = None; dh_error_name = None; dh_response_serial = None; dh_num_fds = None };
+             dh_signature = None; dh_error_name = None;
+             dh_response_serial = (if rs = "-" then None else Some (n_of_int (int_of_string rs))); dh_num_fds = None };
     m_flags = N0; m_body = [] }
 
 let handled_str = function
@@ -65,15 +66,15 @@ let () =
     while true do
       let line = input_line stdin in
       match String.split_on_char ' ' line with
-      | [ "p"; iface; member; typ; serial; sender; pre; draw; secs ] ->
-          let m = make_msg iface member typ (int_of_string serial) sender in
+      | [ "p"; iface; member; typ; serial; sender; rs; pre; draw; secs ] ->
+          let m = make_msg iface member typ (int_of_string serial) sender rs in
           let f0 = if pre = "none" then empty_fs else fs_write machine_id_path (list_of_hex pre) empty_fs in
           let e = { e_now = n_of_int (int_of_string secs); e_rand = list_of_hex draw; e_write_ok = true } in
           let r = handle_peer_message ascii_only e f0 m in
           let written, post = match r with Ok ((_, w), f1) -> (show_written w, show_file f1) | _ -> ("-", show_file f0) in
           Printf.printf "handled=%s filter=%b written=%s pre=%s post=%s\n" (handled_str r) (filter_peer m.m_dh) written pre post
       | [ "u"; d1; d2; secs ] ->
-          let m = make_msg peer_iface get_id "c" 77 "3a312e39" in
+          let m = make_msg peer_iface get_id "c" 77 "3a312e39" "-" in
           let e1 = { e_now = n_of_int (int_of_string secs); e_rand = list_of_hex d1; e_write_ok = true } in
           (* the second call runs with another draw and a later clock: neither may matter *)
           let e2 = { e_now = n_of_int (int_of_string secs + 1000); e_rand = list_of_hex d2; e_write_ok = true } in
